@@ -155,6 +155,12 @@ fn run_item(it: &Item, st: &mut Stats) {
         let err = match r {
             Ok(Ok(())) => {
                 st.nontrivial += 1;
+                if (raw == 300 || raw == 0x20_0000 || raw == u32::MAX) && st.samples.len() < 3 {
+                    let mut b = [0u8; 5];
+                    let z = if it.signed { ref_zigzag(raw as i32) } else { raw };
+                    let n = ref_varu(z, &mut b);
+                    st.sample(json!({"value": if it.signed { format!("i32 {}", raw as i32) } else { format!("u32 {raw}") }, "bytes": bridge::rt::hex(&b[..n]), "sink": format!("{:?}", it.sink), "source": format!("{:?}", it.src)}));
+                }
                 return;
             }
             Ok(Err(e)) => e,
@@ -244,8 +250,6 @@ pub fn run(tier: &str, only: Option<String>) -> i32 {
         println!("  hang in shard {:?} {:?}->{:?}", it.range, it.sink, it.src);
     }, &|it: &Item, st: &mut Stats| run_item(it, st));
     run.stats = stats;
-    run.stats.sample(json!({"value": "u32 300", "bytes": "ac02", "pairs": "Vec->Slice"}));
-    run.stats.sample(json!({"value": "i32 -1", "bytes": "01"}));
     run.stats.add("sink_source_sign_combinations_swept_over_all_2^32_values", full_pairs);
     run.stats.add("structured_subset_size", subset.len() as u64);
     run.exhaustive = true;
